@@ -48,10 +48,10 @@ def generate(seed, tier):
     case = {"family": fam, "seed": seed, "q": rng.choice([0.0, 0.05, 0.3])}
     n = rng.randint(3, 9)
     if fam == "random_hypergraph":
-        case.update(n=n, by_size=[[s, c] for s, c in sorted(_counts(rng, n, tier).items())], sut_seed=rng.randint(0, 10**6))
+        case.update(n=n, by_size=[[s, c] for s, c in sorted(_counts(rng, n, tier).items())], sut_seed=rng.choice([0, 0, 1, rng.randint(0, 10**6), rng.randint(0, 10**6), rng.randint(0, 10**6), rng.randint(0, 10**6)]))
     elif fam == "random_uniform":
         s = rng.randint(1, min(5, n))
-        case.update(n=n, size=s, count=rng.randint(1, max(1, min(8, math.comb(n, s) // 2))), sut_seed=rng.randint(0, 10**6))
+        case.update(n=n, size=s, count=rng.randint(1, max(1, min(8, math.comb(n, s) // 2))), sut_seed=rng.choice([0, 0, 1, rng.randint(0, 10**6), rng.randint(0, 10**6), rng.randint(0, 10**6), rng.randint(0, 10**6)]))
     elif fam == "scale_free":
         n = rng.randint(4, 9)
         by = {s: c for s, c in _counts(rng, n, tier).items() if s >= 2} or {2: 2}
